@@ -6,6 +6,7 @@
 #if __has_include("c05.h")
 # include "c05.h"
 #endif
+#include "c10h.h"
 #if __has_include("c06.h")
 # include "c06.h"
 #endif
@@ -35,6 +36,7 @@ static void Warmup()
 }
 static const PropDef kProps[] = {
    {"C04", c04::Gen, c04::Exec, false},
+   {"C10H", c10h::Gen, c10h::Exec, false},
 #if __has_include("c13.h")
    {"C13", c13::Gen, c13::Exec, false},
 #endif
